@@ -36,6 +36,8 @@ def classify(ev):
         return "accepted-but-not-re-emittable/%s" % rule
     if not ev["tokens_ok"]:
         return "content-dropped/%s" % rule
+    if ev["fixpoint"] and not ev.get("order_ok", True):
+        return "content-reordered/%s" % rule
     return "emit-parse-not-a-fixed-point/%s" % rule
 
 
@@ -80,7 +82,7 @@ def run(ctx):
         if key in seen:
             continue
         seen.add(key)
-        ctx.report(key, "accepted %r; re-emitted as %r (reparse_ok=%s fixpoint=%s missing content=%s)" % (ev["text"], ev["emitted"], ev["reparse_ok"], ev["fixpoint"], ev["missing"]),
+        ctx.report(key, "accepted %r; re-emitted as %r (reparse_ok=%s fixpoint=%s in_order=%s missing content=%s)" % (ev["text"], ev["emitted"], ev["reparse_ok"], ev["fixpoint"], ev.get("order_ok"), ev["missing"]),
                    {"text": ev["text"]})
 
 
